@@ -45,6 +45,12 @@ def verify_function(prog, spec, con, mode='seq', options=None):
         st.pc.append(g)
         nreq += 1
     ex.covers.append(('cover/%s/requires' % prog.short(con.fn), list(st.pc)))
+    for c in con.of('effect'):
+        words = c.extra['arg'].split()
+        if words and words[0] == 'entersheld':
+            pv = spec.eval(ex, specparse.parse_expr(' '.join(words[1:])), env, st, st)
+            st.held = tuple(list(getattr(st, 'held', ())) + [(ex.lock_id(pv.x), 'lock')])
+    held0 = tuple(getattr(st, 'held', ()))
     old = st.copy()
     # lets that only speak about the entry state are available to loop / traversal invariants
     for c in con.clauses:
@@ -65,6 +71,24 @@ def verify_function(prog, spec, con, mode='seq', options=None):
                 env2[n] = ('val', r)
         ex.covers.append(('cover/%s/return#%s' % (short, '.'.join(stf.pathid)), list(stf.pc)))
         pid = '.'.join(stf.pathid)
+        if mode == 'seq':
+            # every internal lock taken by this call is released on this return path (C13); callee effects
+            # `acquires`/`releases` of the function's own contract describe intended differences
+            want = list(held0)
+            for c in con.of('effect'):
+                words = c.extra['arg'].split()
+                if words and words[0] in ('acquires', 'releases'):
+                    pv = spec.eval(ex, specparse.parse_expr(' '.join(words[1:])), env, old, old)
+                    lid = ex.lock_id(pv.x)
+                    if words[0] == 'acquires':
+                        want.append((lid, 'lock'))
+                    else:
+                        want = [w for w in want if not w[0].eq(lid)]
+            have = list(getattr(stf, 'held', ()))
+            same = len(have) == len(want) and all(any(h[0].eq(w[0]) for w in want) for h in have)
+            primitive = any((c.extra['arg'].split() or [''])[0] in ('acquires', 'releases') for c in con.of('effect'))
+            if not primitive:
+                ex.oblige(stf, 'C13/%s/locks.balanced#%s' % (short, pid), z3.BoolVal(bool(same)), tags=['C13'], kind='discipline')
         old_s, post_s = old, stf
         extra_tags = []
         lp_none = any(c.extra.get('arg', '').strip() == 'none' for c in con.of('lp'))
@@ -102,7 +126,7 @@ def verify_function(prog, spec, con, mode='seq', options=None):
             elif c.kind == 'calls':
                 spec.calls_callee(ex, c, env2, stf, old_s, short)
             elif c.kind == 'ensures':
-                if not ex.active(c):
+                if not ex.active(c) or c.extra.get('assumed'):
                     continue
                 g = spec.eval_bool(ex, c.expr, env2, post_s, old_s)
                 ex.oblige(stf, '%s/%s/%s%s#%s' % (ex.tagstr(c), short, 'intf.' if mode == 'intf' else '', c.label or 'post%d' % c.ordinal, pid), g,
